@@ -28,7 +28,7 @@ func init() {
 			return 16000
 		},
 		Run:      runC13,
-		Required: []string{"pairs.std", "pairs.fast", "pairs.recurrent", "pairs.modular", "history.ended_in_error", "history.changed_outputs", "evaluate_twice"},
+		Required: []string{"pairs.std", "pairs.fast", "pairs.recurrent", "pairs.modular", "pairs.with_time_delayed_links", "history.ended_in_error", "history.changed_outputs", "evaluate_twice"},
 	})
 }
 
@@ -128,7 +128,7 @@ func runC13(c *Ctx, idx int) {
 		var builder func() *network.Network
 		var desc map[string]interface{}
 		var nIn int
-		recurrent, modular := false, false
+		recurrent, modular, timeDelayed := false, false, false
 		h := newHasher()
 		switch {
 		case kind == 0:
@@ -161,6 +161,12 @@ func runC13(c *Ctx, idx int) {
 				o.backEdges = 1 + r.Intn(3)
 				o.minHid = 1
 			}
+			if r.Intn(4) == 0 {
+				o.flagForward = 0.3
+			}
+			if r.Intn(4) == 0 {
+				o.timeDelayed = pick(r, 0.2, 0.5)
+			}
 			s := genNet(r, o)
 			for _, e := range s.Edges {
 				recurrent = recurrent || e.Back
@@ -169,7 +175,28 @@ func runC13(c *Ctx, idx int) {
 				h.u64(fbits(e.W))
 			}
 			viaGenesis := r.Intn(2) == 0
+			for _, e := range s.Edges {
+				if e.Delayed {
+					viaGenesis = false // genes can not express a time delay
+					timeDelayed = true
+				}
+			}
+			var mods []netModule
+			if kind == 1 || kind == 5 {
+				// modules laid over a generated network (deeper module inputs than the shipped modular genome has)
+				mods = genModules(r, s)
+				for _, m := range mods {
+					h.i(m.Out)
+					h.i(int(m.Act))
+					for _, u := range m.Ins {
+						h.i(u)
+					}
+				}
+			}
 			builder = func() *network.Network {
+				if len(mods) > 0 {
+					return s.buildModular(mods)
+				}
 				if viaGenesis {
 					net, err := s.genome().Genesis(1)
 					if err != nil {
@@ -181,8 +208,15 @@ func runC13(c *Ctx, idx int) {
 			}
 			nIn = s.NIn
 			desc = s.full()
+			if len(mods) > 0 {
+				modular = true
+				desc["modules"] = fmt.Sprintf("%+v", mods)
+			}
 		}
 		fast := r.Intn(2) == 0
+		if timeDelayed {
+			c.Count("pairs.with_time_delayed_links", 1)
+		}
 		c13Pair(c, r, builder, nIn, fast, recurrent, modular, desc, h)
 	}
 	// evaluating the same organism repeatedly on the same inputs gives identical results
